@@ -773,8 +773,8 @@ def _exclude_constraint(
 
     has_batch = autogen_context._has_batch
 
-    if constraint.deferrable:
-        opts.append(("deferrable", str(constraint.deferrable)))
+    if constraint.deferrable is not None:
+        opts.append(("deferrable", constraint.deferrable))
     if constraint.initially:
         opts.append(("initially", str(constraint.initially)))
     if constraint.using:
